@@ -141,19 +141,45 @@ def run_harness(name, script, timeout=600, asan=False, env=None, args=()):
         return -999, (ex.stdout or b"").decode(errors="replace") if isinstance(ex.stdout, bytes) else (ex.stdout or ""), "TIMEOUT"
 
 
-def run_model(name, queries, timeout=1200):
+def run_model(name, queries, timeout=2400, jobs=16):
+    """Run the extracted model driver on a query text.  Queries (blocks starting with a line `Q ...`)
+    are independent, so they are spread over `jobs` processes; header lines (before the first Q) go to all."""
     build_model()
     exe = os.path.join(VERIF, "ocaml", "gen", name)
-    r = sh([exe], timeout=timeout, input=queries)
-    if r.returncode != 0:
-        os.makedirs(OUT, exist_ok=True)
-        open(os.path.join(OUT, "last_failed_queries.txt"), "w").write(queries)
-        raise Fail("model driver %s failed: %s" % (name, r.stderr[-2000:]))
+    lines = queries.split("\n")
+    header, blocks, cur = [], [], None
+    for ln in lines:
+        if ln.startswith("Q "):
+            cur = [ln]
+            blocks.append(cur)
+        elif cur is None:
+            header.append(ln)
+        else:
+            cur.append(ln)
+    njobs = max(1, min(jobs, len(blocks) // 8 if len(blocks) >= 16 else 1))
+    # balance by size
+    order = sorted(range(len(blocks)), key=lambda i: -sum(len(x) for x in blocks[i]))
+    chunks = [[] for _ in range(njobs)]
+    for k, i in enumerate(order):
+        chunks[k % njobs].append(i)
+    texts = ["\n".join(header + [l for i in ch for l in blocks[i]]) + "\n" for ch in chunks]
+
+    def one(txt):
+        r = sh([exe], timeout=timeout, input=txt)
+        return r
+    from concurrent.futures import ThreadPoolExecutor
+    with ThreadPoolExecutor(max_workers=njobs) as ex:
+        rs = list(ex.map(one, texts))
     ans = {}
-    for line in r.stdout.splitlines():
-        t = line.split()
-        if len(t) >= 2 and t[0] == "A":
-            ans[t[1]] = t[2:]
+    for r in rs:
+        if r.returncode != 0:
+            os.makedirs(OUT, exist_ok=True)
+            open(os.path.join(OUT, "last_failed_queries.txt"), "w").write(queries)
+            raise Fail("model driver %s failed: %s" % (name, r.stderr[-2000:]))
+        for line in r.stdout.splitlines():
+            t = line.split()
+            if len(t) >= 2 and t[0] == "A":
+                ans[t[1]] = t[2:]
     return ans
 
 
